@@ -83,6 +83,10 @@ def try_roots(P):
             roots.append((it["id"], "allocator interface"))
         elif tdef is not None and tdef["path"] in ("alloc::Allocator", "traits::bump_allocator_core::BumpAllocatorCore"):
             roots.append((it["id"], "allocator interface (provided)"))
+        elif tr == "core::fmt::Write" and "PanicsOnAlloc<" not in (impl or {}).get("self_ty", ""):
+            # core::fmt::write drives these through a vtable (invisible to the call graph) from every try_*fmt* method:
+            # they are the sink of try_alloc_fmt / try_write_fmt and must report failure as fmt::Error
+            roots.append((it["id"], "fmt::Write sink of the try_ formatting methods"))
     return roots
 
 
@@ -94,6 +98,7 @@ def r2_try_purity(ctx, P):
     ctx.need(any(p == "panic_on_error" for p in ps.values()) or "nodefault" in (ctx.config or ""), R, "panic set (panic_on_error)")
     roots = try_roots(P)
     ctx.floor(R, "roots (try_* functions and allocator-interface methods)", len(roots), 300)
+    ctx.floor(R, "fmt::Write sink methods among the roots", sum(1 for _, w in roots if w.startswith("fmt::Write")), 4)
     nbad = 0
     # one BFS from all roots (binding-aware); remember the root through parents
     init = []
@@ -105,33 +110,77 @@ def r2_try_purity(ctx, P):
                 bind[g["name"]] = ALLOC_ERROR
         init.append((fid, bind))
     parents = P.reach_fns(init, binding_aware=True)
+    bad = {}
+
+    def report(root, msg, where=None):
+        bad.setdefault(root, []).append((msg, where))
     for st in parents:
         fid, fb = st
         if fid in ps:
             chain = P.path_to(parents, st)
-            root = chain[0][0]
-            nbad += 1
-            ctx.inst(R, root, False, "reaches the allocation-failure panic set: " + " -> ".join(p for p, _ in chain), site=f"-> {ps[fid]}")
+            report(chain[0][0], f"reaches {ps[fid]}: " + " -> ".join(p for p, _ in chain))
         if INFALLIBLE in dict(fb).values():
             chain = P.path_to(parents, st)
-            nbad += 1
-            ctx.inst(R, chain[0][0], False, "an ErrorBehavior parameter is bound to Infallible on a path from a try_/allocator-interface "
-                     "root: " + " -> ".join(f"{p}{b or ''}" for p, b in chain), site=f"binds Infallible in {P.items.get(fid, {}).get('path', fid)}")
+            report(chain[0][0], "an ErrorBehavior parameter is bound to Infallible: " + " -> ".join(f"{p}{b or ''}" for p, b in chain))
         b = P.body(fid)
         if b is None:
             continue
         for s, t in b.calls():
             if t["f"].get("path") in PANIC_FOREIGN:
                 chain = P.path_to(parents, st)
-                nbad += 1
-                ctx.inst(R, chain[0][0], False, f"reaches {t['f']['path']}: " + " -> ".join(p for p, _ in chain), where=b.where(s), site="-> handle_alloc_error")
+                report(chain[0][0], f"reaches {t['f']['path']}: " + " -> ".join(p for p, _ in chain), b.where(s))
             # explicit Infallible generic argument on a call
             for a in t["f"].get("args", []):
                 if a.get("s") == INFALLIBLE:
                     chain = P.path_to(parents, st)
-                    nbad += 1
-                    ctx.inst(R, chain[0][0], False, f"calls {t['f']['path']} with Infallible: " + " -> ".join(p for p, _ in chain),
-                             where=b.where(s), site=f"Infallible arg in {b.path}")
+                    report(chain[0][0], f"calls {t['f']['path']} with Infallible: " + " -> ".join(p for p, _ in chain), b.where(s))
+    for root, msgs in sorted(bad.items()):
+        nbad += 1
+        shortest = min(msgs, key=lambda m: len(m[0]))
+        ctx.inst(R, root, False, f"can panic/abort on allocation failure ({len(msgs)} way(s)); shortest: {shortest[0]}", where=shortest[1],
+                 site="reaches the allocation-failure panic set")
+    # the deliberately panicking formatter sink must not be picked up on a try_ path
+    from .c17 import const_value
+    ae_panics = const_value(P, "<alloc::AllocError as error_behavior::ErrorBehavior>::PANICS_ON_ALLOC")
+    has_poa = any(i.get("path", "").startswith("private::PanicsOnAlloc") for i in P.facts["items"])
+    if has_poa or ae_panics is not None:
+        ctx.inst(R, "<AllocError as ErrorBehavior>::PANICS_ON_ALLOC", ae_panics == 0, f"the constant is {ae_panics} (must be false: "
+                 "generic code selects the panicking formatter sink by it)", site="AllocError does not panic on alloc")
+
+    def dead_under_binding(st):
+        """the edge into `st` is guarded by `<X as ErrorBehavior>::PANICS_ON_ALLOC` with X bound to AllocError in the caller"""
+        par = parents[st]
+        if not par or ae_panics != 0:
+            return False
+        (pfid, pfb), kind, site = par
+        pb = P.body(pfid)
+        if pb is None or site is None:
+            return False
+        bound = {k for k, v in dict(pfb).items() if v == ALLOC_ERROR}
+        te, fe = pb.cond_edges(lambda e: True if (e[0] == "assoc_const" and e[2] == "PANICS_ON_ALLOC" and e[3] and e[3][0] in bound) else None)
+        return bool(te) and pb.controlled_by(site, te, cleanup=False)
+    poa = [st for st in parents if P.items.get(st[0], {}).get("path", "").startswith("private::PanicsOnAlloc::<T>::")]
+    n_dead = 0
+    for st in poa:
+        if dead_under_binding(st):
+            n_dead += 1
+            ctx.inst(R, P.path_to(parents, st)[0][0], True, "PanicsOnAlloc is selected only under `B::PANICS_ON_ALLOC`, which is false for "
+                     "the binding B = AllocError of this path", site="PanicsOnAlloc arm dead for AllocError")
+            continue
+        chain = P.path_to(parents, st)
+        nbad += 1
+        ctx.inst(R, chain[0][0], False, "wraps its sink in PanicsOnAlloc (the fmt::Write impl that panics on allocation failure): " +
+                 " -> ".join(p for p, _ in chain), site="-> PanicsOnAlloc")
+    for fid, fb in parents:
+        b = P.body(fid)
+        if b is None:
+            continue
+        for s_, st_ in b.assigns():
+            if st_["r"]["k"] == "agg" and st_["r"].get("adt", "").endswith("PanicsOnAlloc"):
+                chain = P.path_to(parents, (fid, fb))
+                nbad += 1
+                ctx.inst(R, chain[0][0], False, "constructs PanicsOnAlloc(..) on a try_/allocator-interface path: " +
+                         " -> ".join(p for p, _ in chain), where=b.where(s_), site="-> PanicsOnAlloc aggregate")
     ctx.inst(R, "try_/allocator-interface call graph", nbad == 0, f"{len(roots)} roots, {len(parents)} (function, binding) states explored; "
              f"{nbad} path(s) into the panic set", site="summary")
     # each root individually recorded (sample of the population for the evidence)
@@ -316,6 +365,26 @@ def r6_current_chunk_commit(ctx, P):
     ctx.floor(R, "current-chunk writes examined", nsets, 3)
 
 
+def r7_address_subtraction(ctx, P):
+    R = "C07.R7"
+    ctx.rule(R, "the downward bump helper subtracts a caller-controlled size from an address with saturating/checked "
+                "arithmetic: a request larger than the address must end in the caller's 'does not fit' test, not in an "
+                "arithmetic-overflow panic (debug) or a wrapped address (release)")
+    b = P.find_body("bump_down")
+    if not ctx.need(b is not None, R, "crate-level bump_down helper"):
+        return
+    sat = [(s, t) for s, t in b.calls() if t["f"].get("krate") == "core" and t["f"].get("name") in ("saturating_sub", "checked_sub")
+           and mentions_param(b.prov_operand(t["args"][1], s), 2)]
+    plain = [(s, st) for s, st in b.assigns() if st["r"]["k"] == "bin" and st["r"]["op"].startswith("Sub") and
+             mentions_param(b.prov_operand(st["r"]["b"], s), 2)]
+    plain += [(s, t) for s, t in b.calls() if t["f"].get("krate") == "core" and t["f"].get("name") in ("wrapping_sub", "unchecked_sub")]
+    ok = bool(sat) and not plain
+    ctx.inst(R, b.path, ok, "addr - size is saturating/checked" if ok else
+             "addr - size is a plain/wrapping subtraction: for size > addr the allocator-interface call (grow/grow_zeroed, "
+             "downwards) panics with 'attempt to subtract with overflow' or continues with a wrapped address", where=b.where(),
+             site="addr - size saturates")
+
+
 def run(ctx, progs):
     ctx.assume("rustc nightly's type checker, MIR construction and trait resolution are correct")
     ctx.assume("call graph: trait-method calls on type parameters of local traits are linked to all local impls (CHA), "
@@ -329,4 +398,5 @@ def run(ctx, progs):
         r4_reserve_before_write(ctx, P)
         r5_overflow(ctx, P)
         r6_current_chunk_commit(ctx, P)
+        r7_address_subtraction(ctx, P)
     ctx.config = None
